@@ -90,6 +90,15 @@ def _deep_eq(a, b):
     return a == b
 
 
+class ProgramRaise(AnalysisError):
+    """The interpreted program raises: .exc is the name of the exception class (as far as it is known), the message keeps the historical text
+    'the index program raises: ...' that callers test for."""
+
+    def __init__(self, exc, text):
+        super().__init__("the index program raises: %s" % text)
+        self.exc = exc
+
+
 class _Return(Exception):
     def __init__(self, value):
         self.value = value
@@ -101,6 +110,10 @@ class _Continue(Exception):
 
 class _Break(Exception):
     pass
+
+
+_EXC_PARENTS = {"KeyError": ("LookupError",), "IndexError": ("LookupError",), "ZeroDivisionError": ("ArithmeticError",),
+                "StopIteration": (), "AssertionError": (), "ValueError": (), "TypeError": (), "AttributeError": (), "NotImplementedError": ("RuntimeError",)}
 
 
 class IndexInterp:
@@ -442,7 +455,7 @@ class IndexInterp:
                 return args[0][0]
             if len(args) == 2:
                 return args[1]
-            raise AnalysisError("the index program raises: StopIteration")
+            raise ProgramRaise("StopIteration", "StopIteration")
         if plain and nm in ("any", "all") and len(args) == 1 and isinstance(args[0], list):
             vals = [self.truth(x) for x in args[0]]
             return any(vals) if nm == "any" else all(vals)
@@ -478,7 +491,7 @@ class IndexInterp:
                 if nm == "count":
                     return len(hits)
                 if not hits:
-                    raise AnalysisError("the index program raises: ValueError `%s`" % src(e)[:60])
+                    raise ProgramRaise("ValueError", "ValueError `%s`" % src(e)[:60])
                 if nm == "index":
                     return hits[0]
                 del base[hits[0]]
@@ -515,12 +528,12 @@ class IndexInterp:
             try:
                 return int(args[0])
             except ValueError:
-                raise AnalysisError("the index program raises: int(%r)" % args[0])
+                raise ProgramRaise("ValueError", "int(%r)" % args[0])
         if plain and nm in ("int", "float", "abs") and len(args) == 1 and isinstance(args[0], (int, float)):
             return {"int": int, "float": float, "abs": abs}[nm](args[0])
         if nm in ("zeros", "empty", "zeros_like", "empty_like") and not isinstance(e.func, ast.Name):
             if nm in ("zeros", "empty") and args and args[0] is None:
-                raise AnalysisError("the index program raises: TypeError `%s` with shape None" % src(e)[:40])
+                raise ProgramRaise("TypeError", "TypeError `%s` with shape None" % src(e)[:40])
             shape = args[0] if args else None
             if isinstance(shape, list):
                 shape = tuple(shape)
@@ -556,7 +569,7 @@ class IndexInterp:
             try:
                 return getattr(_re, nm)(*args)
             except (_re.error, TypeError):
-                raise AnalysisError("the index program raises: `%s`" % src(e)[:60])
+                raise ProgramRaise("Exception", "`%s`" % src(e)[:60])
         if isinstance(e.func, ast.Attribute) and nm in ("group", "groups", "start", "end", "span"):
             try:
                 base = self.ev(e.func.value)
@@ -566,7 +579,7 @@ class IndexInterp:
                 try:
                     return getattr(base, nm)(*args)
                 except (IndexError, TypeError):
-                    raise AnalysisError("the index program raises: `%s`" % src(e)[:60])
+                    raise ProgramRaise("IndexError", "`%s`" % src(e)[:60])
         if isinstance(e.func, ast.Attribute) and nm in ("isdigit", "isnumeric", "isdecimal", "isalpha", "removeprefix", "removesuffix", "replace", "partition", "find", "index", "count"):
             try:
                 base = self.ev(e.func.value)
@@ -576,7 +589,7 @@ class IndexInterp:
                 try:
                     r0 = getattr(base, nm)(*args)
                 except ValueError:
-                    raise AnalysisError("the index program raises: `%s`" % src(e)[:60])
+                    raise ProgramRaise("ValueError", "`%s`" % src(e)[:60])
                 return list(r0) if isinstance(r0, tuple) and nm != "partition" else r0
         if plain and nm == "type" and len(args) == 1:
             v = args[0]
@@ -705,7 +718,7 @@ class IndexInterp:
                     except AnalysisError:
                         okk = True              # an assertion on something symbolic is taken to hold
                     if not okk:
-                        raise AnalysisError("the index program raises: AssertionError `%s`" % src(s.test)[:60])
+                        raise ProgramRaise("AssertionError", "AssertionError `%s`" % src(s.test)[:60])
                 continue
             elif isinstance(s, ast.Expr) and isinstance(s.value, ast.Call):
                 c = s.value
@@ -724,6 +737,40 @@ class IndexInterp:
             elif isinstance(s, ast.Expr) and isinstance(s.value, ast.Constant):
                 continue
             elif isinstance(s, ast.Raise):
-                raise AnalysisError("the index program raises: `%s`" % norm_stmt(s)[:60])
+                if s.exc is None:
+                    cur = getattr(self, "_handling", None)
+                    if cur is not None:
+                        raise cur
+                    raise ProgramRaise("RuntimeError", "bare `raise` outside a handler")
+                x = s.exc.func if isinstance(s.exc, ast.Call) else s.exc
+                raise ProgramRaise((dotted(x) or "Exception").split(".")[-1], "`%s`" % norm_stmt(s)[:60])
+            elif isinstance(s, ast.Try):
+                try:
+                    self._block(s.body)
+                except ProgramRaise as r:
+                    handled = False
+                    for h in s.handlers:
+                        names = []
+                        if h.type is not None:
+                            for t0 in (h.type.elts if isinstance(h.type, ast.Tuple) else [h.type]):
+                                names.append((dotted(t0) or "").split(".")[-1])
+                        if h.type is None or r.exc in names or "Exception" in names or "BaseException" in names or \
+                                (r.exc in _EXC_PARENTS and any(n0 in _EXC_PARENTS[r.exc] for n0 in names)):
+                            handled = True
+                            if h.name:
+                                self.env[h.name] = ("exception", r.exc)
+                            prev = getattr(self, "_handling", None)
+                            self._handling = r
+                            try:
+                                self._block(h.body)
+                            finally:
+                                self._handling = prev
+                            break
+                    if not handled:
+                        self._block(s.finalbody)
+                        raise
+                else:
+                    self._block(s.orelse)
+                self._block(s.finalbody)
             else:
                 raise AnalysisError("statement `%s` outside the index-program fragment" % norm_stmt(s)[:50])
